@@ -15,6 +15,7 @@
   Read, the probe after the final chunk or the order of the two `Open` attempts change.
 -/
 import Proofs.GoTieStreamW
+import Proofs.GoTieStreamNew
 namespace AgeModel
 namespace Tie.C12
 
@@ -50,6 +51,24 @@ theorem writer_close_tie {α δ : Type} {S : AgeModel.Stream.DstSpec} (A : AEAD)
       (mc.2 = none → D.absD res.2.dst = mc.1.dst) ∧
       GoTie.wrErrRel res.2.err D.eW mc.1.err :=
   GoTie.writer_close_tie A k E D w m h hctr
+
+/-! `stream.NewReader` / `NewWriter`, translated: with a key the AEAD accepts they build the initial
+states the simulations start from (related to the model's `Reader.new` / `Writer.new`). -/
+
+theorem newReader_rel {α : Type} (New : Bytes → Go.M (α × Option Go.Err)) (nilα a : α) (key : Bytes)
+    (hNew : New key = .ok (a, none)) (data : Bytes) (fail : Bool) :
+    ∃ g, Extracted.stream_NewReader New nilα key ⟨data, fail⟩ = .ok (g, none) ∧ GoTie.RRel g (Stream.Reader.new ⟨data, fail⟩) :=
+  GoTie.newReader_rel New nilα a key hNew data fail
+
+theorem newWriter_tie {α δ : Type} (New : Bytes → Go.M (α × Option Go.Err)) (nilα a : α) (nilδ : δ) (key : Bytes)
+    (hNew : New key = .ok (a, none)) (dst : δ) :
+    Extracted.stream_NewWriter New nilα nilδ key dst =
+      .ok (⟨a, dst, 0, 0, List.replicate 65552 0, List.replicate 12 0, none⟩, none) :=
+  GoTie.newWriter_tie New nilα a nilδ key hNew dst
+
+theorem newWriter_rel {α δ : Type} {S : Stream.DstSpec} (D : GoTie.DstEnv δ S) (a : α) (dst : δ) :
+    GoTie.WRel D (⟨a, dst, 0, 0, List.replicate 65552 0, List.replicate 12 0, none⟩ : Extracted.stream_Writer α δ) (Stream.Writer.new (D.absD dst)) :=
+  GoTie.newWriter_rel D a dst
 
 end Tie.C12
 end AgeModel
